@@ -19,7 +19,7 @@ func init() {
 }
 
 // acceptance classifies a string by the recogniser: "must-accept",
-// "must-reject" or "unconstrained".
+// "must-reject".
 func acceptance(p gda.Parsed) string {
 	if !p.OK {
 		return "must-reject"
@@ -376,12 +376,12 @@ func runC14(r *mon.Run) {
 		"exception, compared with an independent to-scientific-string writer. Parsing: sentences generated from the grammar (all optional " +
 		"parts toggled, long digit runs, payloads, mixed case, exponents at the +/-100000 limits; a few strings of 64 KB to 400 KB with redundant zeros), single-byte insert/delete/replace/" +
 		"duplicate/swap mutations of them, fragment concatenations and random bytes; NewFromString, SetString, UnmarshalText and " +
-		"Scan(string/[]byte) must agree with each other and with an independent DFA recogniser (must-accept / must-reject / unconstrained " +
-		"sliver), and accepted strings must yield the recogniser's value. Format: verbs e E f F g G v s with flag subsets of {+,space,-,0} and " +
+		"Scan(string/[]byte) must agree with each other and with an independent DFA recogniser (must-accept / must-reject), " +
+		"and accepted strings must yield the recogniser's value. Format: verbs e E f F g G v s with flag subsets of {+,space,-,0} and " +
 		"widths 0..30 against a padding model that is calibrated against fmt's own float64 output at run time. distinct_nontrivial = " +
 		"distinct strings at edit distance 1 from the language boundary, distinct formatted (format, value) pairs and values."
 	r.Assumptions = []string{"the recogniser in internal/gda is a faithful transcription of the GDA numeric-string grammar",
-		"grammatical strings whose result is within the limits but whose written exponent field, or whose fraction length, exceeds 100000 are unconstrained (each exponent component is limited separately)",
+		"a value is within the limits when both its exponent and its adjusted exponent are (the written exponent field and the fraction length may each exceed 100000)",
 		"for %v and %s only width and '-' are asserted"}
 	r.Serial("pinned", pinnedC14)
 	r.Parallel("string", r.N(150000, 15000000), stringCase)
